@@ -19,7 +19,7 @@ ASSUMPTIONS = ["column spans are located with the table's own width vector and c
                "presence of a character is asserted only when the column's observed content width (span minus the full "
                "padding) admits its widest character: the width solver does not promise every column its minimum",
                "the unique alphabet excludes box glyphs, the ellipsis and guide glyphs"]
-REQUIRED = ["mon.twin_with_other_overflow_rendered_first", "mon.rectangle", "mon.expand_exact", "mon.title_metamorphic", "mon.row_order", "mon.in_column", "mon.presence"]
+REQUIRED = ["mon.row_of_cells_that_draw_nothing", "mon.twin_with_other_overflow_rendered_first", "mon.rectangle", "mon.expand_exact", "mon.title_metamorphic", "mon.row_order", "mon.in_column", "mon.presence"]
 MIN_NONTRIVIAL = {"quick": 2000, "thorough": 100000}
 
 
@@ -100,6 +100,11 @@ def gen_table(rng):
             total += wmax + pl_ + pr_
         spec["min_width"] = max(1, total + rng.randint(-3, 9))
     return spec, owner
+
+
+def _empty_grid():
+    from rich.table import Table
+    return Table.grid()
 
 
 def visible_lines(console, obj):
@@ -206,6 +211,34 @@ def wl_tables(ctx, rng, case_no):
                 ctx.violation("table-body-depends-on-the-print's-own-wrapping-options:" + feats,
                               dict(wit, outer_options=outer, with_outer_options=lines3[:60]))
                 continue
+        # 2c. a row is a row whatever its cells draw: a row whose cells all render to NOTHING (an empty group, an empty
+        # grid) still has lines of its own - the table looks exactly as with empty texts in that row
+        if case_no % 5 == 2 and bare["rows"] and "declared" not in bare and bare.get("late_column") is None:
+            ctx.count("mon.row_of_cells_that_draw_nothing")
+            k = case_no // 5 % len(bare["rows"])
+            ncell = len(bare["rows"][k]["cells"])
+            if ncell:
+                def with_row(cell):
+                    rows = [dict(r) for r in bare["rows"]]
+                    rows[k] = dict(rows[k], cells=[cell(j) for j in range(ncell)])
+                    return dict(bare, rows=rows)
+                empty_text = {"k": "text", "s": "", "justify": None, "overflow": None, "no_wrap": None, "style": None}
+                nothing = [{"k": "group", "children": [], "fit": True},
+                           {"k": "raw", "factory": _empty_grid}]
+                ta, tb = SP.build(with_row(lambda j: empty_text)), SP.build(with_row(lambda j: nothing[(j + case_no) % 2]))
+                _, a = visible_lines(console, ta)
+                _, b = visible_lines(console, tb)
+                pad_t, _, pad_b, _ = SP.unpack_pad(bare["padding"])
+                same_widths = (SP.build(with_row(lambda j: empty_text))._calculate_column_widths(console, avail - extra) ==
+                               SP.build(with_row(lambda j: nothing[(j + case_no) % 2]))._calculate_column_widths(console, avail - extra))
+                if pad_t or pad_b or not same_widths:
+                    # (with vertical cell padding the row has the padding's lines either way, and an empty text still
+                    # measures differently from nothing at all: only the plain case is compared, by its number of lines)
+                    ctx.count("unasserted:nothing_row_with_vertical_padding_or_other_widths")
+                elif len(a) != len(b):
+                    ctx.violation("row-whose-cells-draw-nothing-differs-from-a-row-of-empty-texts:" + feats,
+                                  dict(wit, row=k, with_empty_texts=a[:40], with_cells_that_draw_nothing=b[:40]))
+                    continue
         # 3. title / caption do not change the body
         if spec["title"] or spec["caption"]:
             ctx.count("mon.title_metamorphic")
